@@ -256,8 +256,9 @@ pub(crate) fn bit_unpack(v: &[u8], a: i32, b: i32) -> Result<R, &'static str> {
         }
     }
 
-    let bot = i32::abs(b - (1 << bitlen) + 1); // b − 2^c + 1 (as abs)
-    ensure!(is_in_range(&w_out, bot, b), "Alg 19: w out of range");
+    // Every c-bit field decodes into [b − 2^c + 1, b]; the caller's range is [−a, b], which is
+    // narrower whenever a + b + 1 is not a power of two (e.g. the [−η, η] fields of a private key)
+    ensure!(is_in_range(&w_out, a, b), "Alg 19: w out of range");
     Ok(w_out)
 }
 
